@@ -510,7 +510,7 @@ class C08(Check):
 
 class C10(Check):
     pid = "C10"
-    lean_modules = []
+    lean_modules = ["MTProps.C10"]
 
     def body(self):
         rng = self.rng
